@@ -203,6 +203,26 @@ def check_replace(s, stats, case):
     from sigtools import signatures
     stats.case()
     ps = list(s.parameters.values())
+
+    def snapshot():
+        # what the signature and its parameters carry, by value (lists and maps copied) and by identity of the leaves
+        return (dict((k, dict(v) if isinstance(v, dict) else list(v)) for k, v in s.sources.items()), id(s.upgraded_return_annotation), str(s),
+                [(q.name, id(q.upgraded_annotation), list(q.sources), dict(q.source_depths)) for q in ps])
+    before = snapshot()
+    try:
+        _check_replace(s, ps, stats, case)
+    finally:
+        # replace() builds a new object: the one it was called on is as it was, whatever was replaced or taken away
+        if snapshot() != before:
+            stats.fail('C14/replace/changes-the-original', case, '%s: after replace() calls on it (and on its parameters) the signature itself carries %r, before %r' % (
+                s, snapshot()[0], before[0]))
+            # (signatures are shared between cases: put back what was there)
+            s.sources.clear()
+            s.sources.update(before[0])
+
+
+def _check_replace(s, ps, stats, case):
+    from sigtools import signatures
     r = s.replace()
     if type(r) is not type(s) or r.sources is not s.sources or r.upgraded_return_annotation is not s.upgraded_return_annotation:
         stats.fail('C14/replace/signature-noargs', case, '%s.replace() -> %s %r loses type, sources or upgraded return annotation' % (s, type(r).__name__, r))
@@ -267,6 +287,11 @@ def check_replace(s, stats, case):
         r = q.replace(upgraded_annotation=mark, sources=['S'], source_depths={'S': 1})
         if r.upgraded_annotation is not mark or r.sources != ['S'] or r.source_depths != {'S': 1} or r.name != q.name or r.kind != q.kind:
             stats.fail('C14/replace/parameter-override', dict(case, parameter=q.name), 'Parameter %s .replace(upgraded_annotation=, sources=, source_depths=) did not take the overrides' % q)
+        # both annotation overrides at once: each is taken as given (they need not denote the same thing)
+        r = q.replace(annotation='RAW', upgraded_annotation=mark)
+        if r.upgraded_annotation is not mark or r.annotation != 'RAW':
+            stats.fail('C14/replace/parameter-override-both-annotations', dict(case, parameter=q.name),
+                       'Parameter %s .replace(annotation=\'RAW\', upgraded_annotation=<MARK>) has annotation %r and upgraded annotation %r' % (q, r.annotation, r.upgraded_annotation))
     # a replaced annotation is the annotation from then on, also for evaluated()
     try:
         if ps and ps[0].replace(annotation='NEW').evaluated().annotation != 'NEW':
